@@ -201,6 +201,17 @@ CLAIMED.update({
                   "asserted), chunks='auto', like=.", design_ref="DESIGN.md sec. 3 C34"),
 })
 
+CLAIMED.update({
+ "C48": dict(text="The real Bag API is built over a hand-made partition graph (solver-enumerated partition structure incl. empty partitions anywhere, <=3-6 partitions, "
+                  "<=3-5 elements) whose elements are symbolic ints, computed with the synchronous scheduler and compared element-wise (z3 equality, all element "
+                  "values) with the plain-Python computation on the concatenated sequence: map/starmap/pluck/filter/remove/map_partitions/flatten/accumulate/take/"
+                  "topk/repartition/zip/concat/product, fold/reduction/sum/count/max/min/any/all for split_every in {2,3,None,False}; predicates on elements fork in "
+                  "the solver. Hash-based operations (distinct, frequencies, foldby, groupby, join) enumerate only what they hash (the key x % 2 or tiny element "
+                  "ranges); mean/var/std against the exact rational value at 1e-9.",
+             note=_ENUM_NOTE + "cytoolz is absent, so toolz runs in pure Python and symbolic ints pass through it. Outside: disk shuffle and partition_size (witnesses "
+                  "only), random_sample, text/avro/dataframe I/O, non-associative binops, non-neutral initial values.", design_ref="DESIGN.md sec. 3 C48"),
+})
+
 NOT_APPLICABLE = {}
 
 _NA_DESIGN = {
